@@ -21,7 +21,7 @@
 //!            whose probe answers `compiler_id=<kind>` / `compiler_version=<version>`; then the real parse_arguments
 //!            and generate_hash_key run for `-c foo.c -o foo.o` with `pp_text` as the preprocessor's output: the key
 //!            printed is what hash_key returns with the plusplus() of the detected compiler
-//!   flow     case `( (label..) ( step ... ) )`   step = ( exe kind version ((k v)..) ((name #content mtime_secs)..) ppmode )
+//!   flow     case `( (label..) ( step ... ) )`   step = ( exe kind version ((k v)..) ((name #content mtime_secs)..) ppmode [(arg..)] )
 //!            -> `( ( #result-key #manifest-key|none ) | undetected | cannot_cache | err | panic ... )`: the steps of a case
 //!            run one after the other IN THIS PROCESS and in ONE directory: real get_compiler_info (mock probe), real
 //!            parse_arguments for `-c foo.c -o foo.o -fsanitize-blacklist=<name>...` and real generate_hash_key with the
@@ -424,6 +424,8 @@ fn flow_step(rt: &tokio::runtime::Runtime, storage: &Arc<RecStorage>, dir: &Path
         a.push(OsStr::from_bytes(f.arg(0).bytes()));
         args.push(a);
     }
+    // further command-line arguments of the step (e.g. `-arch x86_64 -arch arm64`, kept in this order)
+    args.extend(os_list(st.arg(6)));
     let env = env_list(st.arg(3));
     let creator: Arc<Mutex<MockCommandCreator>> = CommandCreatorSync::new(&Client::new_num(1));
     let mut probe = b"compiler_id=".to_vec();
@@ -467,6 +469,8 @@ fn flow_step(rt: &tokio::runtime::Runtime, storage: &Arc<RecStorage>, dir: &Path
 }
 
 fn leg_flow() {
+    // gcc.rs reads this from the SERVER's environment: without it two different -arch are not cacheable at all
+    std::env::set_var("SCCACHE_CACHE_MULTIARCH", "1");
     let rt = tokio::runtime::Builder::new_current_thread().enable_all().build().unwrap();
     let td = tempfile::Builder::new().prefix("vh-c02-drv-").tempdir_in("/dev/shm").unwrap();
     let root = td.path().to_path_buf();
